@@ -168,6 +168,9 @@ func (a *c14Agg) add(sc *c14Scenario, fault *c14Fault, s *vk.Sched, out *c14Outc
 	if out.Overlap {
 		run.Count("list_overlap|"+cat, 1)
 	}
+	if out.Concurrent {
+		run.Count("list_updates_concurrent|"+cat, 1)
+	}
 	run.Count("cross_node_reads", int64(out.CrossReads))
 	run.Count("route_ops_checked", int64(out.RouteOps))
 	for _, sig := range out.Sigs {
@@ -318,7 +321,7 @@ func TestVerifC14List(t *testing.T) {
 	run.Floor("fault_hits", 500)
 	run.Floor("cross_node_reads", 500)
 	for _, c := range c14CatName {
-		run.Floor("list_overlap|"+c, 1)
+		run.Floor("list_updates_concurrent|"+c, 50)
 	}
 	run.Floor("window_miss_then_mutation|persistent", 1)
 	run.Floor("window_miss_then_mutation|sharedpersistent", 1)
